@@ -209,6 +209,12 @@ def _flat(s: str) -> str:
     return " ".join(s.replace("\n", " ").split())
 
 
+TRANSLATED = {("simulator/file_system/folder.py", "Folder.scan"), ("simulator/file_system/folder.py", "Folder._scan_timestep"),
+              ("simulator/file_system/file.py", "File.scan"), ("simulator/system/software.py", "Software.scan"),
+              ("simulator/network/hardware/base.py", "Node.scan")}
+TRANSLATED_GUARD = "<translated: C14GenScan>"
+
+
 def inventory() -> List[Tuple[str, str, str, str, str, str, str]]:
     """rows (file, scope, field, kind, target, value, guard), sorted"""
     rows: List[Tuple[str, str, str, str, str, str, str]] = []
@@ -220,7 +226,12 @@ def inventory() -> List[Tuple[str, str, str, str, str, str, str]]:
             raise ValueError(f"cannot parse {rel}: {e}")
 
         def add(scope, field, kind, target, value, guards):
-            rows.append((rel, ".".join(scope) or "<module>", field, kind, _flat(target), _flat(value), " && ".join(guards)))
+            sc = ".".join(scope) or "<module>"
+            # the bodies of these methods are TRANSLATED statement by statement and proved equal to the model for every state
+            # (extract/health_scan_tr.py, Props/C14GenScan.lean): the guard under which each write happens is tied semantically there,
+            # so its TEXT is not compared here (a guard-clause rewrite of the same meaning must not break the inventory)
+            g = TRANSLATED_GUARD if (rel, sc) in TRANSLATED else " && ".join(guards)
+            rows.append((rel, sc, field, kind, _flat(target), _flat(value), g))
 
         def exprs(node, scope, guards):
             """calls / keyword writes inside one simple statement or expression (lambdas included)"""
